@@ -475,6 +475,10 @@ func runPipe(p *PipePlan, ch *simrt.Choices, trace bool, adopt map[string][]byte
 			sim.GoNamed("tap-"+pr, true, func() {
 				for {
 					simrt.Yield(-20)
+					if c.TapDelayUs > 0 {
+						// a slow consumer: a backlog builds up in the outgoing queue
+						simrt.Sleep(time.Duration(c.TapDelayUs) * time.Microsecond)
+					}
 					m, ok := <-mq
 					simrt.Yield(-20)
 					if !ok {
